@@ -243,6 +243,17 @@ package kvql
 //@     invariant[C08] j1: limit1(p, old(p.pos)) ==> curTok(p) <= old(p.pos) + 1
 //@     invariant[C08] j2: limit2(p, old(p.pos)) ==> curTok(p) <= old(p.pos) + 3
 //
+// One `(key, value)` pair of a PUT statement: both expressions are present on success, and every
+// syntax error it raises sits on a token (the statement-level callers are not under contract).
+//@ func (p *Parser) parsePutKVPair() (ret *PutKVPair, err error)
+//@   props C17
+//@   ensures[C17] errpos: errAtToken(p, err)
+//@   requires wfParser(p)
+//@   assigns p.tok, p.pos, p.nestLev, p.exprLev
+//@   ensures ok: err == nil ==> ret != nil && fresh(ret) && ret.Key != nil && ret.Value != nil
+//@   ensures fail: err != nil ==> ret == nil
+//@   ensures wf: wfParser(p)
+//
 // ---------------------------------------------------------------------------------------------
 // Lexer (property C16): every token carries the offset at which its text begins and exactly that
 // text (case-folded for words), quoted literals are the bytes between their two quote characters.
